@@ -784,6 +784,26 @@ class _ConstSubst(ast.NodeTransformer):
     def visit_Call(self, node):
         node = self.generic_visit(node)
         node.args = self._splice(node.args)
+        # f(**{"a": x, "b": y}) and f(**{k: d[k] for k in ("a", "b")}) are f(a=x, b=y) / f(a=d["a"], b=d["b"])
+        kws = []
+        for kw in node.keywords:
+            v = kw.value
+            if kw.arg is None and isinstance(v, ast.Dict) and v.keys and all(isinstance(k, ast.Constant) and isinstance(k.value, str)
+                                                                             and k.value.isidentifier() for k in v.keys):
+                kws.extend(ast.keyword(arg=k.value, value=val) for k, val in zip(v.keys, v.values))
+                self.changed = True
+            elif kw.arg is None and isinstance(v, ast.DictComp) and len(v.generators) == 1 and not v.generators[0].ifs \
+                    and isinstance(v.generators[0].target, ast.Name) and isinstance(v.key, ast.Name) \
+                    and v.key.id == v.generators[0].target.id and isinstance(v.generators[0].iter, (ast.Tuple, ast.List)) \
+                    and v.generators[0].iter.elts and all(isinstance(x, ast.Constant) and isinstance(x.value, str) and x.value.isidentifier()
+                                                          for x in v.generators[0].iter.elts):
+                var = v.key.id
+                for x in v.generators[0].iter.elts:
+                    kws.append(ast.keyword(arg=x.value, value=_Subst({var: x}).visit(copy.deepcopy(v.value))))
+                self.changed = True
+            else:
+                kws.append(kw)
+        node.keywords = kws
         return node
 
 
